@@ -389,6 +389,218 @@ pub fn universe_3d(nmax: usize) -> Vec<Tab> {
 }
 
 // ---------------------------------------------------------------------------------
+// products and twisted stackings: prisms over the tiles of a 2D symbol
+
+/// the automorphisms of a connected complete symbol (maps d ↦ a[d], entry 0 unused): the image of
+/// chamber 1 determines the map; it must commute with every operation and keep every branching number
+pub fn automorphisms(t: &Tab) -> Vec<Vec<usize>> {
+    let mut out = vec![];
+    'img: for e1 in 1..=t.size {
+        let mut a = vec![0usize; t.size + 1];
+        a[1] = e1;
+        let mut stack = vec![1usize];
+        while let Some(d) = stack.pop() {
+            for i in 0..=t.dim {
+                let (x, y) = (t.op[i][d], t.op[i][a[d]]);
+                if a[x] == 0 {
+                    a[x] = y;
+                    stack.push(x);
+                } else if a[x] != y {
+                    continue 'img;
+                }
+            }
+        }
+        let mut hit = vec![false; t.size + 1];
+        for d in 1..=t.size {
+            if a[d] == 0 || hit[a[d]] {
+                continue 'img;
+            }
+            hit[a[d]] = true;
+            if (0..t.dim).any(|i| t.v[i][d] != t.v[i][a[d]]) {
+                continue 'img;
+            }
+        }
+        out.push(a);
+    }
+    out
+}
+
+/// order of an automorphism
+pub fn perm_order(a: &[usize]) -> usize {
+    let n = a.len() - 1;
+    let mut cur: Vec<usize> = (0..=n).collect();
+    for k in 1..=720 {
+        cur = (0..=n).map(|d| if d == 0 { 0 } else { a[cur[d]] }).collect();
+        if (1..=n).all(|d| cur[d] == d) {
+            return k;
+        }
+    }
+    0
+}
+
+/// 3D symbol from operations and DEGREES m (v = m / r; `None` if some r does not divide m)
+fn from_ops_and_degrees(n: usize, op: &dyn Fn(usize, usize) -> usize, m: &dyn Fn(usize, usize) -> usize) -> Option<Tab> {
+    let mut t = Tab { size: n, dim: 3, op: vec![vec![0; n + 1]; 4], v: vec![vec![0; n + 1]; 3] };
+    for i in 0..=3 {
+        for x in 1..=n {
+            t.op[i][x] = op(i, x);
+        }
+    }
+    // involutions, commuting far operations
+    for i in 0..=3 {
+        for x in 1..=n {
+            let y = t.op[i][x];
+            if y < 1 || y > n || t.op[i][y] != x {
+                return None;
+            }
+        }
+    }
+    if !t.far_commute() || !t.is_connected() {
+        return None;
+    }
+    for i in 0..3 {
+        for x in 1..=n {
+            let (r, deg) = (t.r(i, i + 1, x), m(i, x));
+            if deg % r != 0 {
+                return None;
+            }
+            t.v[i][x] = deg / r;
+        }
+        // constant on orbits
+        for x in 1..=n {
+            for y in t.orbit2(i, i + 1, x) {
+                if t.v[i][y] != t.v[i][x] {
+                    return None;
+                }
+            }
+        }
+    }
+    Some(t)
+}
+
+/// degrees of the prism tiling over the 2D symbol `s`: chamber types A = (vertex, cap edge, cap),
+/// B = (vertex, cap edge, side face), C = (vertex, vertical edge, side face); `ty` ∈ {0,1,2}
+fn prism_degree(s: &Tab, ty: usize, i: usize, d: usize) -> usize {
+    match (ty, i) {
+        (0, 0) => s.r(0, 1, d) * s.v[0][d], // cap polygon
+        (_, 0) => 4,                         // side faces are quadrangles
+        (_, 1) => 3,                         // prism corners
+        (2, 2) => s.r(1, 2, d) * s.v[1][d], // prisms around a vertical edge
+        (_, 2) => 4,                         // prisms around a cap edge
+        _ => unreachable!(),
+    }
+}
+
+/// prisms over the tiles of the complete 2D symbol `s`, one layer of prisms per period: going up
+/// through a cap applies the automorphism `tau` of `s` (identity: translation; otherwise a
+/// screw motion or glide).  6·|s| chambers: top half (h = 0) and bottom half (h = 1) of a prism,
+/// numbered 3n·h + n·type + d.
+pub fn stacked_prisms(s: &Tab, tau: &[usize]) -> Option<Tab> {
+    assert_eq!(s.dim, 2);
+    let n = s.size;
+    let mut tinv = vec![0; n + 1];
+    for d in 1..=n {
+        tinv[tau[d]] = d;
+    }
+    let op = |i: usize, x: usize| -> usize {
+        let h = (x - 1) / (3 * n);
+        let ty = (x - 1) % (3 * n) / n;
+        let d = (x - 1) % n + 1;
+        let same = h * 3 * n;
+        let other = (1 - h) * 3 * n;
+        match (ty, i) {
+            (0, 0) => same + s.op[0][d],
+            (0, 1) => same + s.op[1][d],
+            (0, 2) => same + n + d,
+            (0, 3) => other + if h == 0 { tau[d] } else { tinv[d] },
+            (1, 0) => same + n + s.op[0][d],
+            (1, 1) => same + 2 * n + d,
+            (1, 2) => same + d,
+            (1, 3) => same + n + s.op[2][d],
+            (2, 0) => other + 2 * n + d,
+            (2, 1) => same + n + d,
+            (2, 2) => same + 2 * n + s.op[1][d],
+            (2, 3) => same + 2 * n + s.op[2][d],
+            _ => unreachable!(),
+        }
+    };
+    let m = |i: usize, x: usize| prism_degree(s, (x - 1) % (3 * n) / n, i, (x - 1) % n + 1);
+    from_ops_and_degrees(6 * n, &op, &m)
+}
+
+/// prisms with a mirror plane at mid-height; crossing a cap is the reflection in the cap plane
+/// followed by the involutive automorphism `sigma` of `s` (identity: every cap plane is a
+/// mirror).  3·|s| chambers, numbered n·type + d.
+pub fn mirror_prisms(s: &Tab, sigma: &[usize]) -> Option<Tab> {
+    assert_eq!(s.dim, 2);
+    let n = s.size;
+    if (1..=n).any(|d| sigma[sigma[d]] != d) {
+        return None;
+    }
+    let op = |i: usize, x: usize| -> usize {
+        let ty = (x - 1) / n;
+        let d = (x - 1) % n + 1;
+        match (ty, i) {
+            (0, 0) => s.op[0][d],
+            (0, 1) => s.op[1][d],
+            (0, 2) => n + d,
+            (0, 3) => sigma[d],
+            (1, 0) => n + s.op[0][d],
+            (1, 1) => 2 * n + d,
+            (1, 2) => d,
+            (1, 3) => n + s.op[2][d],
+            (2, 0) => 2 * n + d,
+            (2, 1) => n + d,
+            (2, 2) => 2 * n + s.op[1][d],
+            (2, 3) => 2 * n + s.op[2][d],
+            _ => unreachable!(),
+        }
+    };
+    let m = |i: usize, x: usize| prism_degree(s, (x - 1) / n, i, (x - 1) % n + 1);
+    from_ops_and_degrees(3 * n, &op, &m)
+}
+
+/// inside the quantified domain of the 3D property
+pub fn in_domain_3d(t: &Tab) -> bool {
+    t.dim == 3
+        && t.is_connected()
+        && (0..3).all(|i| (1..=t.size).all(|d| CRYST.contains(&t.v[i][d])))
+        && locally_spherical(t)
+}
+
+/// every 2D symbol over the D-set `t` with branching numbers in {1,2,3,4,6}
+pub fn symbols_2d_cryst(t: &Tab) -> Vec<Tab> {
+    crate::dsgen::all_vs(t, &CRYST)
+}
+
+/// the prism symbols over the 2D symbol `s` that lie in the 3D domain, with a label:
+/// mirror prisms for every involutive automorphism (incl. identity) and stacked prisms for every
+/// automorphism of order ≤ `max_order`, one representative per pair {τ, τ⁻¹} is NOT taken (the two
+/// stackings are mirror images, both are inputs)
+pub fn prisms_over(s: &Tab, max_order: usize, with_stack: bool) -> Vec<(String, Tab)> {
+    let mut out = vec![];
+    let auts = automorphisms(s);
+    for (k, a) in auts.iter().enumerate() {
+        let o = perm_order(a);
+        if o <= 2 {
+            if let Some(p) = mirror_prisms(s, a) {
+                if in_domain_3d(&p) {
+                    out.push((format!("mirror-prism aut={} order={}", k, o), p));
+                }
+            }
+        }
+        if with_stack && o >= 1 && o <= max_order {
+            if let Some(p) = stacked_prisms(s, a) {
+                if in_domain_3d(&p) {
+                    out.push((format!("stacked-prism aut={} order={}", k, o), p));
+                }
+            }
+        }
+    }
+    out
+}
+
+// ---------------------------------------------------------------------------------
 // corpus
 
 /// own reader of the `<a.b:size dim:ops:degrees>` text format (complete symbols only):
